@@ -60,6 +60,7 @@ func c15BaseGenomes() []*GenomeSpec {
 	two := c11Case{Layout: 2, Pass: 2, Code: 333}.spec()
 	gs := []*GenomeSpec{xorSeed(), disconnectedSeed(), evolvedSeed(), hbGenome(3, 2, 1), late, two}
 	gs = append(gs, c06Corners()[:3]...)
+	gs = append(gs, unsortedSeed())
 	return gs
 }
 
@@ -127,6 +128,8 @@ func c15Family(c *Ctx) (fam []*GenomeSpec, modular []*GenomeSpec) {
 		}
 		cfg.WithMating = fi == 0
 		cfg.MaxStates = 1500
+		// only the reached genomes matter here, not the operator trees: small balls, short budget
+		cfg.OpDev, cfg.ParamDev, cfg.MateDev, cfg.BudgetS = 1, 1, 1, 60
 		cfg.Seeds, cfg.SeedNames, cfg.Prop = fams[fi], names[fi], "C15"
 		tmp := newCtx("C15", c.Tier, c.Level)
 		tmp.deadline = c.deadline
@@ -166,6 +169,7 @@ type c15Fail struct{ clause, msg string }
 func c15Genome(g *GenomeSpec, modular bool) (fails []c15Fail, trips int64) {
 	want := normKey(g)
 	gen := g.Build()
+	origWellFormed := wellFormed(g.Build()) == ""
 	check := func(what string, got *genetics.Genome, err error, wantID int) {
 		trips++
 		if err != nil {
@@ -180,7 +184,7 @@ func c15Genome(g *GenomeSpec, modular bool) (fails []c15Fail, trips int64) {
 			fails = append(fails, c15Fail{what + "/id", fmt.Sprintf("%s: genome id %d read back as %d", what, wantID, got.Id)})
 		}
 		// references must point into the genome read back
-		if msg := wellFormed(got); msg != "" && len(got.Genes) > 0 {
+		if msg := wellFormed(got); msg != "" && len(got.Genes) > 0 && origWellFormed {
 			fails = append(fails, c15Fail{what + "/ill-formed", fmt.Sprintf("%s: the genome read back is not well-formed: %s", what, msg)})
 		}
 	}
@@ -283,7 +287,7 @@ func c15Population(gs []*GenomeSpec) (fails []c15Fail) {
 		if back.Organisms[i].Genotype.Id != i {
 			return []c15Fail{{"population/genome-id", fmt.Sprintf("genome #%d read back with id %d", i, back.Organisms[i].Genotype.Id)}}
 		}
-		if msg := wellFormed(back.Organisms[i].Genotype); msg != "" {
+		if msg := wellFormed(back.Organisms[i].Genotype); msg != "" && wellFormed(g.Build()) == "" {
 			return []c15Fail{{"population/ill-formed", fmt.Sprintf("genome #%d read back is not well-formed: %s", i, msg)}}
 		}
 	}
@@ -466,7 +470,10 @@ func c15CompareExperiment(ep *experiment.Experiment, data []byte, target *experi
 		{"EpochsPerTrial", func(e *experiment.Experiment) string { return fmt.Sprint(e.EpochsPerTrial()) }},
 		{"TrialsSolved", func(e *experiment.Experiment) string { return fmt.Sprint(e.TrialsSolved()) }},
 		{"SuccessRate", func(e *experiment.Experiment) string { return fmt.Sprint(e.SuccessRate()) }},
-		{"AvgWinnerStatistics", func(e *experiment.Experiment) string { a, b, c, d := e.AvgWinnerStatistics(); return fmt.Sprint(a, b, c, d) }},
+		{"AvgWinnerStatistics", func(e *experiment.Experiment) string {
+			a, b, c, d := e.AvgWinnerStatistics()
+			return fmt.Sprint(a, b, c, d)
+		}},
 		{"Solved", func(e *experiment.Experiment) string { return fmt.Sprint(e.Solved()) }},
 	}
 	for _, s := range stats {
@@ -547,7 +554,7 @@ func runC15(c *Ctx) {
 			one.Nodes[i].Trait = 1
 		}
 	}
-	popFam := []*GenomeSpec{xorSeed(), evolvedSeed(), disconnectedSeed(), hbGenome(0, 2, 0), one, c06Corners()[1]}
+	popFam := []*GenomeSpec{xorSeed(), evolvedSeed(), unsortedSeed(), hbGenome(0, 2, 0), one, c06Corners()[1]}
 	var pops int64
 	for a := 0; a < len(popFam); a++ {
 		for b := a; b <= len(popFam); b++ {
